@@ -529,6 +529,7 @@ func lexInsideAction(l *lexer) stateFn {
 			l.emit(itemUnderscore)
 			return lexInsideAction
 		}
+		l.width = 1 // peek() left the width of the rune after '_' behind; backup() below must step back over '_'
 		fallthrough // no space? must be the start of an identifier
 	case isAlphaNumeric(r):
 		l.backup()
